@@ -1953,6 +1953,7 @@ matrix_rem_generic(PyObject *self, PyObject *other, int inplace)
   int id = MAX(id_self,id_other);
 
   if (id == COMPLEX) PY_ERR(PyExc_NotImplementedError, "complex modulo");
+  if (inplace && id != id_self) PY_ERR_TYPE("invalid inplace operation");
 
   number n;
   convert_num[id](&n,other,(Matrix_Check(other) ? 0 : 1),0);
